@@ -920,6 +920,18 @@ def expand(sec, skel, tier, a):
         coefsets = [cyc(C, 3, j) for j in range(3)]
         times = [0.3, -0.3, cyc(T, 3, 0)] if q else list(T) + [cyc(T, 3, j) for j in range(3)]
         perms = [None, [1, 2, 0]]
+    if sec in ("b1", "b2"):
+        # coefficient x time exactly a multiple of pi (or pi/2): exp(-i k pi P) = (-1)^k is NOT the identity once a control or the
+        # returned phase is involved; the other term (if any) keeps a generic value
+        exact = [(0.5, 2 * PI), (PI, 1.0), (-PI, 1.0), (1.0, 3 * PI), (2 * PI, 1.0), (0.25, 2 * PI), (PI, -1.0)]
+        for c0, t0 in exact:
+            for cn in P["controls"]:
+                s, ctl = cts[cn]
+                cs = [c0] + [C[0]] * (k - 1)
+                terms = mk([shift(w, s) for w in words], cs)
+                for order in (1, 2):
+                    yield {"kind": "qop", "fn": "trot", "terms": terms, "time": t0, "order": order, "steps": 1, "control": ctl}
+                    yield {"kind": "qop", "fn": "gexp", "terms": terms, "time": t0, "order": order, "control": ctl, "perm": None}
     for cs in coefsets:
         for cn in P["controls"]:
             s, ctl = cts[cn]
